@@ -61,6 +61,12 @@ def run(tier, seed, only=None):
                 hs2 = rnd.sample(hs2, min(30, len(hs2)))
             for i, h in enumerate(hs + hs2):
                 cases.append({"id": "%s-%d" % (drv, i), "h": h["h"], "ev": h["ev"], "viz": h["viz"], "cmds": h.get("cmds", True)})
+            # histories that START with the dependency visualisation on: losing one of the two graph files, switching the
+            # visualisation off, every edit class - one environment step away
+            hv, _ = P.gen_histories("Gen_Pipeline_%s_e1viz" % drv)
+            ngen["e1viz-" + drv] = len(hv)
+            for i, h in enumerate(hv):
+                cases.append({"id": "%s-viz%d" % (drv, i), "h": h["h"], "ev": h["ev"], "viz": h["viz"], "cmds": h.get("cmds", True)})
             # histories that START in a project without commands (the first run generates nothing; commands appear later)
             hf, _ = P.gen_histories("Gen_Pipeline_%s_fresh" % drv)
             ngen["fresh-" + drv] = len(hf)
